@@ -396,7 +396,7 @@ func genC08(g *G) {
 		}
 	}
 	rec(nil)
-	for i := 0; i < g.Count(150, 5000); i++ {
+	for i := 0; i < g.Count(150, 2500); i++ {
 		ps := sub(g.Intn(len(pool)+1), pool)
 		if g.Intn(8) == 0 && len(ps) > 0 { // a repeated peer
 			ps = append(ps, ps[g.Intn(len(ps))])
@@ -424,7 +424,7 @@ func genC08(g *G) {
 			g.Emit("sortparties", j(nw), j(od))
 		}
 	}
-	for i := 0; i < g.Count(300, 20000); i++ {
+	for i := 0; i < g.Count(300, 8000); i++ {
 		nw := sub(g.Intn(len(pool)+1), pool)
 		var od []string
 		if g.Intn(4) == 0 {
@@ -436,7 +436,7 @@ func genC08(g *G) {
 	}
 	// start params of resharing and their validation
 	thrs := []string{"-1", "0", "1", "2", "3", "5"}
-	for i := 0; i < g.Count(300, 20000); i++ {
+	for i := 0; i < g.Count(300, 8000); i++ {
 		store := sub(1+g.Intn(len(pool)), pool)
 		kp := sub(g.Intn(6), pool)
 		kps := j(kp)
@@ -473,7 +473,7 @@ func genC08(g *G) {
 	// release rule, readiness, subset size
 	g.Emit("release", "ecdsa", "0")
 	g.Emit("release", "ecdsa", "1")
-	for i := 0; i < g.Count(200, 10000); i++ {
+	for i := 0; i < g.Count(200, 5000); i++ {
 		kp := sub(g.Intn(7), pool)
 		ready := sub(g.Intn(len(pool)+1), pool)
 		kind := []string{"ecdsa", "frost"}[g.Intn(2)]
@@ -614,7 +614,7 @@ func genC08(g *G) {
 				}
 			}
 		}
-		for i := 0; i < g.Count(8, 250); i++ {
+		for i := 0; i < g.Count(8, 150); i++ {
 			emit(g.Intn(3), []string{g.Pick(subsAll), g.Pick(subsAll), g.Pick(subsAll)})
 		}
 		for i := 0; i < g.Count(12, 300); i++ {
